@@ -3,7 +3,7 @@ CONSTANTS
   Consumers = {"c1", "c2"}
   NCalls = 2
   NGC = 2
-  IncLate = TRUE
-  NoCountRecheck = FALSE
+  IncLate = FALSE
+  NoCountRecheck = TRUE
   NoRecheck = FALSE
 INVARIANTS NoUseAfterClose InuseExact CurrentOpen NoLeak MutexSane
